@@ -121,7 +121,7 @@ def obligations(tier):
     obs = []
 
     def add(name, timeout=120, **kw):
-        obs.append({"name": name, "module": M, "fn": "b_assign", "kwargs": kw, "timeout": timeout if q else timeout * 5, "abstract_crc": False})
+        obs.append({"name": name, "module": M, "fn": "b_assign", "kwargs": kw, "timeout": timeout * 5 if q else timeout * 12, "abstract_crc": False})
 
     if q:
         cfgs = [(1, 2), (2, 2), (3, 2), (2, 3)]
